@@ -4,6 +4,12 @@
      B <ro|rw> <nkeys> keys.. <nops> bops..                   bops = F L N P S<hex>
      R <kind> <nseg> (rowid present nA A.. nops ops..)..      one runtime symbol re-opened row after row
      S <field> <variant> <nent> (id present nA A..).. <filter> a scan with a set filter through the cached symbol
+     I <kind> <fw> <flt> <skip> <limit> <nP> P.. <nC> C.. <nF> F.. <nops> ops..
+         scanners layered over cursors (Cursor/Scanner.v): IterateIds / IterateValidIds of a root store (ids, vids), a child
+         store (cids, cvids), an Extended() child store (xids, xvids), "<kind>0" = the entities bucket does not exist;
+         q* = QueryWithCursorC (ScanCursor).  P ids of the root store, C ids with child data, F ids the filter accepts.
+         The specification side is "~" for a paged cursor that is sought (no set to speak about: model only); the model
+         side is "-" for QueryWithCursorC over providers other than the entities bucket.
          filter (prefix): E | Z | =<hex> | #<hex> | A<hex> | C<n> | ! f | & f g | "|" f g
    Output: C/Q: "<model observations> | <specification observations>"; B: returned keys;
            R: the same per segment, segments separated by "/"; S: "<n> ids.." on both sides.
@@ -128,6 +134,50 @@ let () =
           match scan_run tag fuel f rows with
           | Ok ids -> ids_line ids | Panic -> "P" | OutOfFuel -> "F" in
         print_endline (model ^ " | " ^ ids_line (scan_spec f rows))
+    | "I" :: kind :: fw :: _flt :: skip :: limit :: rest ->
+        let fw = fw = "1" in
+        let p, rest = take_set rest in
+        let c, rest = take_set rest in
+        let f, rest = take_set rest in
+        let ops, _ = take_ops rest in
+        let ops = List.map parse_op ops in
+        let nobkt = kind.[String.length kind - 1] = '0' in
+        let base = if nobkt then String.sub kind 0 (String.length kind - 1) else kind in
+        let child = List.mem base ["cids"; "cvids"; "xvids"; "qcc"] in
+        let inset l x = mem x l in
+        let yes _ = true in
+        let matches = inset f in
+        let off = if skip = "-" then O else nat_of_int (int_of_string skip) in
+        let lim = if limit = "-" then None else Some (nat_of_int (int_of_string limit)) in
+        let paged = skip <> "-" || limit <> "-" in
+        let fuel = nat_of_int (List.length p + 2) in
+        let ids = if nobkt then None else Some p in
+        let universe = if nobkt then [] else p in
+        let accepted = List.filter (fun x -> (not child || inset c x) && matches x) universe in
+        let seeks = List.exists (function CSeek _ -> true | CNext -> false) ops in
+        if String.length kind > 0 && kind.[0] = 'q' then begin
+          let listed = page off lim (if fw then accepted else List.rev accepted) in
+          let n = List.length ops in
+          let trace l cnt =
+            let toks = List.map (fun x -> "V" ^ hex_of_bytes x) l in
+            let rec pad t = if List.length t < n + 1 then pad (t @ ["I"]) else t in
+            String.concat " " (pad toks @ ["#" ^ string_of_int cnt]) in
+          let model =
+            match base with
+            | "qc" | "qcc" | "qcx" ->
+                (match scan_bolt_run (if base = "qcc" then inset c else yes) matches fuel off lim fw p with
+                 | Ok (l, cnt) -> trace l (int_of_nat cnt) | Panic -> "P" | OutOfFuel -> "F")
+            | _ -> "-" in
+          print_endline (model ^ " | " ^ trace listed (List.length accepted))
+        end else begin
+          let model =
+            match base with
+            | "xvids" -> if paged then [] else valid_ids_run yes matches (inset c) fuel ids ops
+            | "cids" | "cvids" -> ids_run (inset c) matches fuel off lim ids ops
+            | _ -> ids_run yes matches fuel off lim ids ops in
+          let spec = if paged && seeks then "~" else obs_line (spec_ops true (page off lim accepted) ops) in
+          print_endline ((if model = [] then "-" else obs_line model) ^ " | " ^ spec)
+        end
     | "Q" :: which :: fw :: nent :: rest ->
         let fw = fw = "1" in
         let nent = int_of_string nent in
